@@ -111,6 +111,8 @@ type Group struct {
 	history     []ChatHistoryEntry
 	timestamp   time.Time
 	data        map[string]interface{}
+	// set when the group has been removed from the groups table
+	deleted bool
 }
 
 func (g *Group) Name() string {
@@ -599,6 +601,7 @@ func deleteUnlocked(g *Group) bool {
 	}
 
 	delete(groups.groups, g.name)
+	g.deleted = true
 	return true
 }
 
@@ -609,6 +612,15 @@ func AddClient(group string, c Client, creds ClientCredentials) (*Group, error) 
 	}
 
 	g.mu.Lock()
+	for g.deleted {
+		// the group was deleted after we got hold of it, try again
+		g.mu.Unlock()
+		g, err = Add(group, nil)
+		if err != nil {
+			return nil, err
+		}
+		g.mu.Lock()
+	}
 	defer g.mu.Unlock()
 
 	clients := g.getClientsUnlocked(nil)
